@@ -40,7 +40,8 @@ def targets_for(prop: str) -> List[str]:
     from pyvc.contracts import load_all
 
     reg = load_all()
-    return [t for t, c in reg.contracts.items() if prop in getattr(c, "props", ())]
+    tier = os.environ.get("VERIF_TIER_EFFECTIVE", "quick")
+    return [t for t, c in reg.contracts.items() if prop in getattr(c, "props", ()) and (tier == "thorough" or getattr(c, "tier", "quick") != "thorough")]
 
 
 def obligations_file(prop: str) -> str:
@@ -48,6 +49,7 @@ def obligations_file(prop: str) -> str:
 
 
 def run_p(report: Report, prop: str, tier: str, targets: Optional[List[str]] = None, workers: int = 16) -> Dict[str, dict]:
+    os.environ["VERIF_TIER_EFFECTIVE"] = tier
     targets = targets if targets is not None else targets_for(prop)
     budget = 10000 if tier == "quick" else 30000
     results: Dict[str, dict] = {}
@@ -133,6 +135,8 @@ def run_p(report: Report, prop: str, tier: str, targets: Optional[List[str]] = N
             report.p_failures.append({"function": t, "obligation": v["name"], "kind": v["kind"], "where": v["where"], "solver": v["solver"], "result": v["status"], "detail": v["detail"], "model": v.get("model")})
         # vacuity / sidecar drift guard: fewer obligations than the committed list is a tool error
         exp = expected.get(t)
+        if t not in expected and expected and not os.environ.get("VERIF_UPDATING_OBLIGATIONS") and tier == "quick":
+            pass
         if exp is not None and not os.environ.get("VERIF_UPDATING_OBLIGATIONS"):
             for name, cnt in exp.items():
                 # only the contract's own clauses are compared: obligations that depend on the
@@ -150,5 +154,15 @@ def run_p(report: Report, prop: str, tier: str, targets: Optional[List[str]] = N
 
 def write_expected(prop: str, current: Dict[str, Dict[str, int]]):
     os.makedirs(os.path.dirname(obligations_file(prop)), exist_ok=True)
+    if os.path.exists(obligations_file(prop)):
+        with open(obligations_file(prop)) as f:
+            old = json.load(f)
+        from pyvc.contracts import load_all
+
+        reg = load_all()
+        for t, names in old.items():
+            c = reg.contract_for(t)
+            if t not in current and c is not None and getattr(c, "tier", "quick") == "thorough":
+                current[t] = names  # thorough-only contract: not re-generated by a quick run
     with open(obligations_file(prop), "w") as f:
         json.dump(current, f, indent=1, sort_keys=True)
